@@ -195,6 +195,33 @@ Definition rtmp_read_session (hs : bool) (ms : list rmsg) (s : stream) : N * N :
       (N.of_nat (length d1 + length d2), match e2 with Some e => e | None => 1000%N end)
   end.
 
+(* ---- what a plan yields on k bytes followed by the terminal error t, computed directly ----
+   (Proofs/Faults.v proves that rtmp_read_session returns exactly this for every sticky stream
+   that delivers k bytes, however segmented: rtmp_read_session_spec.  The correspondence run uses it
+   for long wires, where simulating the transport for every cut offset would cost wire x offsets.) *)
+Definition short_code (o : rop) (a t : N) : N :=
+  match o with
+  | RF _ => if (a =? 0)%N then t else if (t =? id_EOF)%N then id_UnexpectedEOF else t
+  | CN _ => t
+  end.
+Fixpoint item_outcome (ops : list rop) (a t : N) : N + N :=
+  match ops with
+  | [] => inl a
+  | o :: r => if (rop_size o <=? a)%N then item_outcome r (a - rop_size o)%N t
+              else inr (short_code o a t)
+  end.
+Fixpoint plan_outcome (items : list (list rop)) (a t : N) (n : N) : N * option N :=
+  match items with
+  | [] => (n, None)
+  | it :: r => match item_outcome it a t with
+               | inl a' => plan_outcome r a' t (N.succ n)
+               | inr e => (n, Some e)
+               end
+  end.
+Definition rtmp_read_outcome (hs : bool) (ms : list rmsg) (k t : N) : N * N :=
+  let (n, e) := plan_outcome ((if hs then hs_plan else []) ++ msgs_plan DEFCHUNK ms ++ [[RF 1]]) k t 0%N in
+  (n, match e with Some x => x | None => 1000%N end).
+
 (* the same session over a transport whose fault is transient (Lib/IO.v tr_read_t) *)
 Definition rtmp_read_session_t (hs : bool) (ms : list rmsg) (s : stream) : N * N :=
   let '(d1, e1, s1) := if hs then run_items stream tr_read_t hs_plan s [] else ([], None, s) in
@@ -425,6 +452,7 @@ Definition run_rtmp_read (hs : bool) (ms : list rmsg) (term : N) (mode : Z)
                  if transient then
                    rtmp_read_session_t hs ms
                      (mk_stream_t (repeat 0%N (N.to_nat k)) (repeat 0%N (N.to_nat (total - k))) sizes term together)
+                 else if (4096 <? total)%N then rtmp_read_outcome hs ms k term
                  else rtmp_read_session hs ms
                         (mk_stream (repeat 0%N (N.to_nat k)) sizes term together) in
                SL [sN n; obs_cause e]) ks).
